@@ -342,6 +342,17 @@ func (c *Ctx) c15FileLoads() {
 		{map[string]string{"helper/gen.go": gen, "tools/tools.go": tools, "helper/helper.go": helper}, "helper/gen.go", "tools 3\nhelper 4\ngen 4\n"},
 		{map[string]string{"tools/gen.go": "package tools\n\nimport \"helper\"\n\nvar G = helper.N\n", "helper/helper.go": "package helper\n\nimport \"tools\"\n\nvar N = 1\n"}, "tools/gen.go", "ERROR"},
 		{map[string]string{"tools/gen.go": gen, "tools/tools.go": tools, "helper/helper.go": helper}, "tools", "tools 3\n"},
+		// a directory that holds nothing but _test.go files is a package without script source: nothing of it runs, its
+		// imports are not followed, its package clauses are not compared - at the last candidate of the search too
+		{map[string]string{"main/main.go": "package main\nimport (\n\"a\"\n\"helper\"\n)\nfunc init() { println(\"main\") }\n", "a/a.go": "package a\nimport \"example.com/x/helper\"\nfunc init() { println(\"a\") }\n",
+			"helper/helper_test.go": "package helper\nvar X = mark()\nfunc mark() int { println(\"BAD helper_test.go top-level\"); return 1 }\nfunc init() { println(\"BAD helper_test.go init\") }\n",
+			"helper/more_test.go":   "package helper_test\nimport \"main\"\nfunc init() { println(\"BAD more_test.go init\") }\n"}, "main", "a\nmain\n"},
+		{map[string]string{"main/main.go": "package main\nimport \"example.com/x/helper\"\nfunc init() { println(\"main\") }\n", "helper/helper_test.go": "package helper\nfunc init() { println(\"BAD helper_test.go init\") }\n"}, "main", "main\n"},
+		{map[string]string{"main/main.go": "package main\nimport \"helper\"\nfunc init() { println(\"main\") }\n", "helper/helper.go": "package helper\nfunc init() { println(\"helper\") }\n",
+			"helper/helper_test.go": "package helper\nfunc init() { println(\"BAD helper_test.go init\") }\n"}, "main", "helper\nmain\n"},
+		{map[string]string{"helper/helper_test.go": "package helper\nfunc init() { println(\"BAD helper_test.go init\") }\n"}, "helper", "ERROR"},
+		{map[string]string{"main/main.go": "package main\nimport \"example.com/x/helper\"\nfunc init() { println(\"main\") }\n", "vendor/example.com/x/helper/h_test.go": "package helper\nfunc init() { println(\"BAD vendored test\") }\n",
+			"helper/helper.go": "package helper\nfunc init() { println(\"helper\") }\n"}, "main", "main\n"},
 	} {
 		fs := fstest.MapFS{}
 		for n, d := range k.files {
